@@ -95,7 +95,6 @@ def matrix(repo, names, props, tier="quick"):
     env = dict(ENV, FIV_REPO=repo)
     for n in names:
         d = os.path.join(SEEDED, n)
-        sh("git checkout -- .", repo)
         rc, o = sh(f"git apply {d}/patch.diff", repo)
         if rc != 0:
             print(f"{n}: patch does not apply: {o[-200:]}", flush=True)
@@ -107,7 +106,7 @@ def matrix(repo, names, props, tier="quick"):
             row[p] = {"rc": pr.returncode, "sig": sig[0][:160] if sig else ""}
             print(f"MATRIX {n} {p} rc={pr.returncode} {sig[0][:160] if sig else ''}", flush=True)
         out[n] = row
-        sh("git checkout -- .", repo)
+        sh(f"git apply -R {d}/patch.diff", repo)
     json.dump(out, open(os.path.join(os.environ.get("FIV_ALT_DIR", "/tmp"), "matrix.json"), "w"), indent=1)
 
 
